@@ -75,7 +75,7 @@ def tlc(module, cfg, metadir, env=None, workers=1, timeout=1800, extra=(), xmx='
     if env:
         e.update(env)
     shutil.rmtree(metadir, ignore_errors=True)
-    cmd = java_cmd(xmx) + ['-workers', str(workers), '-metadir', metadir, '-config', cfg] + list(extra) + [module]
+    cmd = java_cmd(xmx) + ['-workers', str(workers), '-metadir', metadir, '-noGenerateSpecTE', '-config', cfg] + list(extra) + [module]
     try:
         p = subprocess.run(cmd, capture_output=True, text=True, timeout=timeout, env=e, cwd=cwd)
     except subprocess.TimeoutExpired:
